@@ -341,6 +341,9 @@ func (t *tr) expr(e ast.Expr) string {
 		if fn == "len" && len(v.Args) == 1 {
 			return "(GoLen.len " + t.expr(v.Args[0]) + ")"
 		}
+		if (fn == "string" || fn == "[]byte" || fn == "json.RawMessage") && len(v.Args) == 1 {
+			return t.expr(v.Args[0]) // strings and byte slices are both byte lists in the model
+		}
 		if (fn == "int" || fn == "int64" || fn == "int32") && len(v.Args) == 1 {
 			return t.expr(v.Args[0]) // integer conversions are the identity on the model's Int (values are small)
 		}
@@ -1281,6 +1284,10 @@ func main() {
 							chanSites = append(chanSites, site{fn, fnm, "Send(via encode)", held})
 						case "delete":
 							if len(v.Args) == 2 && fields[src(v.Args[0])] {
+								writers = append(writers, site{fn, fnm, src(v.Args[0]) + ".delete", held})
+							}
+						case "clear": // clear(m) removes every entry: the same kind of write as delete(m, k)
+							if len(v.Args) == 1 && fields[src(v.Args[0])] {
 								writers = append(writers, site{fn, fnm, src(v.Args[0]) + ".delete", held})
 							}
 						case "close":
